@@ -47,7 +47,7 @@ def run_shard(spec):
                 case = gen.pipeline_case(rng, CLASSES)
             case['kind'] = 'e2e'
             case['gen'] = [spec['seed'], spec['shard'], i]
-            judge_e2e(case, spec['workdir'], sh, pool=(i < 2))
+            core.isolated(lambda c, w, child: judge_e2e(c, w, child, pool=(i < 2)), sh, case, spec['workdir'])
     else:
         for i in range(spec['cases']):
             rng = rng_for('C01dir', spec['seed'], spec['shard'], i)
